@@ -172,7 +172,7 @@ proof {
         r matches Some(rg) ==> rg.wf() && rg.end.raw <= self.text.spec_bytes().len() /*@C25.offset-in-document*/,
         r matches Some(rg) ==> offset_ok(self.line_index, self.text.spec_bytes(), range.start.line as int, range.start.character as int, rg.start.raw as int)
             && offset_ok(self.line_index, self.text.spec_bytes(), range.end.line as int, range.end.character as int, rg.end.raw as int) /*@C22.doc.to_rowan_range.clamped*/""",
-        proof=[(r'Some\(TextRange::new\(start, end\)\)', 'before', """
+        proof=[(r'Some\(TextRange::new\(', 'before', """
 proof {
     lemma_offsets_ordered(self.line_index, self.text.spec_bytes(), range.start.line as int, range.start.character as int, start.raw as int,
         range.end.line as int, range.end.character as int, end.raw as int);
@@ -253,6 +253,7 @@ invariant
             proof=WALK_PROOF + [
                 (r'Some\(TextSize::from\(offset as u32\)\)', 'before', WALK_AFTER),
             ]),
+        **DOC_ITEMS,
     },
     'extra_rules': [
         ('get-copied-unwrap-or', r'(\w+(?:\.\w+)*)\.get\((\w+)\)\.copied\(\)\.unwrap_or\(false\)',
@@ -295,9 +296,42 @@ invariant
         {'name': 'line-col-ascii-col-from-text-start', 'item': 'LineIndex::get_line_col',
          'pattern': r'usize::from\(offset - start_offset\)', 'repl': 'usize::from(offset)',
          'expect': r'C22\.get_line_col'},
+        # LuaDocument
+        # killed by the proof obligation of TextRange::new's run-time assertion start <= end (precondition in the shim)
+        {'name': 'doc-rowan-range-swapped', 'item': 'LuaDocument::to_rowan_range',
+         'pattern': r'TextRange::new\(start, end\)', 'repl': 'TextRange::new(end, start)',
+         'expect': r'to_rowan_range:precondition-not-satisfied\{Some\(TextRange::new'},
+        {'name': 'doc-rowan-range-end-col-from-start', 'item': 'LuaDocument::to_rowan_range',
+         'pattern': r'range\.end\.character as usize', 'repl': 'range.start.character as usize',
+         'expect': r'C22\.doc\.to_rowan_range\.clamped'},
+        {'name': 'doc-line-range-empty', 'item': 'LuaDocument::get_line_range',
+         'pattern': r'get_line_offset\(line \+ 1\)', 'repl': 'get_line_offset(line)',
+         'expect': r'C22\.doc\.line-range'},
+        {'name': 'doc-lsp-range-start-col-from-end', 'item': 'LuaDocument::to_lsp_range',
+         'pattern': r'character: start\.1 as u32', 'repl': 'character: end.1 as u32',
+         'expect': r'C22\.doc\.to_lsp_range|C21\.range-wellformed'},
+        {'name': 'doc-lsp-range-reversed', 'item': 'LuaDocument::to_lsp_range',
+         'pattern': r'line: start\.0 as u32,(\s*)character: start\.1 as u32,(.*?)line: end\.0 as u32,(\s*)character: end\.1 as u32,',
+         'repl': r'line: end.0 as u32,\1character: end.1 as u32,\2line: start.0 as u32,\3character: start.1 as u32,',
+         'expect': r'C21\.range-wellformed'},
+        {'name': 'doc-lsp-position-swapped', 'item': 'LuaDocument::to_lsp_position',
+         'pattern': r'line: line_col\.0 as u32', 'repl': 'line: line_col.1 as u32',
+         'expect': r'C22\.doc\.to_lsp_position'},
+    ],
+    'samples': [
+        'parse: ensures wf(&r, text.spec_bytes()) (sorted complete line starts, exact per-line ASCII flags, valid UTF-8)',
+        'get_line_col: on_line(off, l) && c == cols(decode_utf8(b[line_start(l)..off]))',
+        'get_offset: None iff the line is missing; Some(o) ==> offset_ok (on the line, char boundary, col exact or clamped to the content end)',
+        'lemma_round_trip: get_line_col then get_offset returns the same offset (from the two contracts only)',
+        'LuaDocument::to_lsp_range: start <= end lexicographically; to_rowan_range: ordered, end <= text.len()',
+    ],
+    'not_covered': [
+        'LineIndex::is_line_only_ascii (public wrapper, one call), LuaDocument::{new, get_text_slice, get_line, get_col, get_line_count, get_document_lsp_range, get_uri, ...}',
+        'that every LuaDocument is built with line_index == LineIndex::parse(text) (Vfs) is the stated representation invariant, not proved here',
+        'UTF-16 column weight (C23): cw(c) == 1 is used in lemma_cols_len only',
     ],
     'allow': [r'external_body', r'assume_specification<I: core::slice::SliceIndex<str>>'],
-    'min_obligations': 10,
+    'min_obligations': 60,
     'trusted': [
         'text-size shim (units/common/textsize.rs), cross-checked by Kani against the real crate (thorough tier)',
         'vx_partition_point_le: std doc contract of slice::partition_point; vx_chars_count: str::chars().count() == number of scalar values',
@@ -305,5 +339,3 @@ invariant
         'input assumption: text.len() < 2^32 - 1 (offsets are u32; rowan has the same limit)',
     ],
 }
-
-UNIT['items'].update(DOC_ITEMS)
